@@ -256,53 +256,29 @@ impl AstLowering {
                 }
             }
             ast::Type::Generic(base, params) => {
+                // Lower each parameter exactly once: lowering them again per arm doubled the work at every
+                // nesting level (`List[List[...]]` 30 deep took minutes).
                 let lowered_params: Vec<_> = params.iter().map(|p| self.lower_type(&p.node)).collect();
+                fn nth(lowered: &[IrType], i: usize) -> IrType {
+                    lowered.get(i).cloned().unwrap_or(IrType::Unknown)
+                }
                 match classify_generic_base(base.as_str()) {
-                    GenericBaseKind::Collection(CollectionTypeId::List) => IrType::List(Box::new(
-                        params
-                            .first()
-                            .map(|p| self.lower_type(&p.node))
-                            .unwrap_or(IrType::Unknown),
-                    )),
+                    GenericBaseKind::Collection(CollectionTypeId::List) => {
+                        IrType::List(Box::new(nth(&lowered_params, 0)))
+                    }
                     GenericBaseKind::Collection(CollectionTypeId::Dict) => IrType::Dict(
-                        Box::new(
-                            params
-                                .first()
-                                .map(|p| self.lower_type(&p.node))
-                                .unwrap_or(IrType::Unknown),
-                        ),
-                        Box::new(
-                            params
-                                .get(1)
-                                .map(|p| self.lower_type(&p.node))
-                                .unwrap_or(IrType::Unknown),
-                        ),
+                        Box::new(nth(&lowered_params, 0)),
+                        Box::new(nth(&lowered_params, 1)),
                     ),
-                    GenericBaseKind::Collection(CollectionTypeId::Set) => IrType::Set(Box::new(
-                        params
-                            .first()
-                            .map(|p| self.lower_type(&p.node))
-                            .unwrap_or(IrType::Unknown),
-                    )),
-                    GenericBaseKind::Collection(CollectionTypeId::Option) => IrType::Option(Box::new(
-                        params
-                            .first()
-                            .map(|p| self.lower_type(&p.node))
-                            .unwrap_or(IrType::Unknown),
-                    )),
+                    GenericBaseKind::Collection(CollectionTypeId::Set) => {
+                        IrType::Set(Box::new(nth(&lowered_params, 0)))
+                    }
+                    GenericBaseKind::Collection(CollectionTypeId::Option) => {
+                        IrType::Option(Box::new(nth(&lowered_params, 0)))
+                    }
                     GenericBaseKind::Collection(CollectionTypeId::Result) => IrType::Result(
-                        Box::new(
-                            params
-                                .first()
-                                .map(|p| self.lower_type(&p.node))
-                                .unwrap_or(IrType::Unknown),
-                        ),
-                        Box::new(
-                            params
-                                .get(1)
-                                .map(|p| self.lower_type(&p.node))
-                                .unwrap_or(IrType::Unknown),
-                        ),
+                        Box::new(nth(&lowered_params, 0)),
+                        Box::new(nth(&lowered_params, 1)),
                     ),
                     GenericBaseKind::Collection(CollectionTypeId::Tuple) => IrType::Tuple(lowered_params),
                     GenericBaseKind::Collection(
@@ -315,9 +291,7 @@ impl AstLowering {
                         };
                         IrType::NamedGeneric(collections::as_str(id).to_string(), lowered_params)
                     }
-                    GenericBaseKind::Other => {
-                        IrType::NamedGeneric(base.clone(), params.iter().map(|p| self.lower_type(&p.node)).collect())
-                    }
+                    GenericBaseKind::Other => IrType::NamedGeneric(base.clone(), lowered_params),
                 }
             }
             ast::Type::Function(params, ret) => IrType::Function {
